@@ -27,7 +27,7 @@ sys.path.insert(0, os.path.dirname(os.path.dirname(os.path.abspath(__file__))))
 import tour
 from checks import c09 as h
 
-FAULTS = ["close", "cut", "garbage", "unknown", "oversize", "unmount", "halfclose"]
+FAULTS = ["close", "cut", "garbage", "unknown", "oversize", "unmount", "halfclose", "wfail"]
 
 
 def dead_end_paths(dot, limit=3, last=None):
